@@ -700,7 +700,20 @@ func (s *seq) finish(cc *crashCtx) {
 		}
 		if class != "" {
 			if k > 0 {
-				class = "torn_write_" + m.kind() + ":" + class
+				// finding classes exist for the torn writes the format cannot survive (no checksum, no
+				// commit mark): a slot write cut behind its term field, the zeroing write, a meta write,
+				// a new file cut inside its first slot.  The cuts proved harmless (payload writes, a slot
+				// write cut inside the term, a new file cut later) get a class of their own, which is
+				// not a known finding.
+				desc = class + ": " + desc
+				switch kind := m.kind(); {
+				case kind == "slot" && k <= 8:
+					class = "torn_write_slot_inside_term"
+				case kind == "fill" && k >= 32:
+					class = "torn_write_fill_behind_first_slot"
+				default:
+					class = "torn_write_" + kind
+				}
 			}
 			s.viol(line, class, fmt.Sprintf("crash inside `%s` %s: %s [image: crash %d %d]", clip(cc.op, 120), what, desc, j, k))
 		}
